@@ -667,6 +667,8 @@ pub enum Profile {
     Hyp,
     /// growth restrictions inverted (C09 only)
     Wild,
+    /// many ground impls, goals with unknowns: answer enumeration (C03)
+    Enum,
 }
 
 pub fn available() -> bool {
@@ -704,6 +706,7 @@ pub fn gen(rng: &mut Rng, profile: Profile) -> GenOut {
     let wild = profile == Profile::Wild;
     let coind = profile == Profile::Coinductive;
     let hyp = profile == Profile::Hyp;
+    let enu = profile == Profile::Enum;
     let f = Feats {
         co: coind || rng.coin(50),
         auto: coind || rng.coin(50),
@@ -784,9 +787,9 @@ pub fn gen(rng: &mut Rng, profile: Profile) -> GenOut {
     }
     // impls
     let mut impls: Vec<ImplDecl> = vec![];
-    for _ in 0..rng.range(2, 8) {
+    for _ in 0..(if enu { rng.range(6, 14) } else { rng.range(2, 8) }) {
         let (tn, tnp, tk) = rng.pick(&trait_info).clone();
-        let np = *rng.pick(&[0usize, 0, 1, 1, 2]);
+        let np = if enu { *rng.pick(&[0usize, 0, 0, 0, 1]) } else { *rng.pick(&[0usize, 0, 1, 1, 2]) };
         let params: Vec<String> = (0..np).map(|i| format!("T{}", i)).collect();
         let coish = tk != TraitKind::Ind;
         let mut self_ty = if f.blanket && np >= 1 && rng.coin(if coind && tk == TraitKind::Co { 4 } else { 20 }) && tk != TraitKind::Auto {
@@ -810,7 +813,7 @@ pub fn gen(rng: &mut Rng, profile: Profile) -> GenOut {
         let positive = !(tk == TraitKind::Auto && f.neg && rng.coin(40));
         let mut wcs = vec![];
         if positive {
-            for _ in 0..rng.range(0, 2) {
+            for _ in 0..(if enu && rng.coin(70) { 0 } else { rng.range(0, 2) }) {
                 let cands: Vec<&(String, usize, TraitKind)> = if coish { trait_info.iter().filter(|x| x.2 != TraitKind::Ind).collect() } else { trait_info.iter().collect() };
                 if cands.is_empty() {
                     continue;
@@ -859,7 +862,7 @@ pub fn gen(rng: &mut Rng, profile: Profile) -> GenOut {
     let mut goals = vec![];
     let ng = rng.range(6, 10);
     for gi in 0..ng {
-        let closed = coind || gi < ng * 2 / 3 || hyp && gi < ng - 1;
+        let closed = !enu && (coind || gi < ng * 2 / 3 || hyp && gi < ng - 1);
         goals.push(gen_goal(rng, &prog, &ar, &trait_info, closed, profile));
     }
     GenOut { prog, goals }
@@ -973,6 +976,31 @@ fn gen_goal(rng: &mut Rng, prog: &Prog, ar: &[(String, usize)], traits: &[(Strin
         Goal::Pred(pred(rng, cx, scope, false))
     }
     let mut cx = Cx { ar, traits, ctr: 0, open: !closed, wild, coind: profile == Profile::Coinductive, hyp: profile == Profile::Hyp, tainted, evars: vec![] };
+    if profile == Profile::Enum {
+        // enumeration goals: predicates that really mention the unknowns
+        let n = if rng.coin(30) { 2 } else { 1 };
+        let vs: Vec<String> = (1..=n).map(|i| format!("X{}", i)).collect();
+        cx.evars = vs.clone();
+        let inductive: Vec<&(String, usize, TraitKind)> = traits.iter().filter(|t| t.2 == TraitKind::Ind).collect();
+        let mut mk = |rng: &mut Rng| -> Goal {
+            let t = if inductive.is_empty() { traits[0].clone() } else { (*rng.pick(&inductive)).clone() };
+            let self_ty = if rng.coin(60) {
+                Ty::Var(rng.pick(&vs).clone())
+            } else {
+                let gen: Vec<&(String, usize)> = ar.iter().filter(|a| a.1 > 0).collect();
+                if gen.is_empty() {
+                    Ty::Var(vs[0].clone())
+                } else {
+                    let (n, k) = (*rng.pick(&gen)).clone();
+                    Ty::Adt(n, (0..k).map(|_| Ty::Var(rng.pick(&vs).clone())).collect())
+                }
+            };
+            let args = (0..t.1).map(|_| if rng.coin(50) { Ty::Var(rng.pick(&vs).clone()) } else { ty(rng, &cx, 1, &[]) }).collect();
+            Goal::Pred(Pred { ty: self_ty, tr: t.0.clone(), args })
+        };
+        let body = if rng.coin(25) { Goal::And(vec![mk(rng), mk(rng)]) } else { mk(rng) };
+        return Goal::Exists(vs, Box::new(body));
+    }
     if closed {
         g(rng, &mut cx, 3, &[], false)
     } else {
